@@ -134,9 +134,94 @@ def run(ctx, rep):
         _errdrop.run(F, rep, ctx)
     if _guards is not None:
         _guards.run(F, rep, ctx)
+    return_scope(F, rep)
     _predtable.run(F, rep, ctx)
     from props import C02 as _c02
     _c02.return_marking(F, rep, "C03.return-marking")
     _predtable.run_conditions(F, rep)
     _identity.run(F, rep)
     _identity.zip_lengths(F, rep, "C03.zip-length")
+
+
+def return_scope(F, rep):
+    """`return v` is checked against the function it is in.  A block (if / else / while / from) inherits what it owes from the scopes around it;
+    the walk that finds it must not look past the innermost function scope -- a void closure inside an `-> int` function would otherwise accept
+    `return 1` from one of its blocks.  The functions that compute a block's starting status (the origin of the `yields` argument of the block
+    scope pushes) are evaluated on a scripted scope stack  [block(No), Function(Void), Function(Should(OUTER))] : OUTER must not come back."""
+    import absint
+    from absint import Interp, Variant, Opaque, Ptr, some, NONE
+    from props.C15 import scripted_next, NEXT
+    srs = F.adt("compiler::scope::ScopeReturnStatus")
+    sc = F.adt("compiler::scope::Scope")
+    st = F.adt("compiler::scope::ScopeType")
+    if srs is None or sc is None or st is None:
+        raise AnchorMissing("Scope / ScopeType / ScopeReturnStatus")
+    rn = [v["name"] for v in srs["variants"]]
+    tn = [v["name"] for v in st["variants"]]
+
+    def status(name, payload=None):
+        return Variant("compiler::scope::ScopeReturnStatus", rn.index(name), name, [payload] if payload is not None else [])
+
+    def scope(kind, yields):
+        vi = tn.index(kind)
+        ty = Variant("compiler::scope::ScopeType", vi, kind, [Opaque("p%d" % i) for i in range(len(st["variants"][vi]["fields"]))])
+        return Variant("compiler::scope::Scope", 0, "Scope", [ty if f["name"] == "ty" else (yields if f["name"] == "yields" else Opaque(f["name"]))
+                                                              for f in sc["variants"][0]["fields"]])
+    pushers = ("compiler::parser::AssocFileData::push_if_typed", "compiler::parser::AssocFileData::push_else_typed",
+               "compiler::parser::AssocFileData::push_while_loop", "compiler::parser::AssocFileData::push_number_loop")
+    finders = {}
+    for g, c in F.callers_of(pushers):
+        if len(c.args) < 2 or op_local(c.args[1]) is None:
+            continue
+        for oc in rules.origin_calls(g, op_local(c.args[1]), transparent=rules.TRANSPARENT | {"core::option::Option::map_or_else", "core::option::Option::map_or",
+                                                                                              "core::option::Option::map", "core::option::Option::unwrap_or"}):
+            f2 = F.fn(oc.callee())
+            if f2 is not None and f2.path.startswith("compiler::parser::AssocFileData::"):
+                finders[f2.path] = f2
+    rep.floor("C03.return-scope functions computing a block's starting status", len(finders), 1)
+
+    def filter_map(it, p, fid, fn, t, args):
+        cl = args[1]
+        if not isinstance(cl, absint.Closure):
+            return NotImplemented
+        g = it.lookup_fn(cl.defn)
+        if g is None:
+            return NotImplemented
+        v = args[0]
+
+        def wrap(r):
+            if isinstance(r, Variant) and r.adt == "core::option::Option":
+                return absint.ok(r.fields[0]) if r.name == "Some" else absint.err(v)
+            return Opaque("filter_map")
+        return ("enter", g, [cl, v], wrap)
+    outer = Opaque("OUTER-FUNCTION-RETURN-TYPE")
+    script = [scope("IfBlock", status("No")), scope("Function", status("Void")), scope("Function", status("Should", outer)), scope("File", status("No"))]
+    for path, f2 in sorted(finders.items()):
+        models = dict(absint.DEFAULT_MODELS)
+        models[NEXT] = scripted_next(script)
+        models["core::cell::Ref::filter_map"] = filter_map
+        it = Interp(F, models=models, max_depth=6, max_paths=128, loop_bound=8)
+        outs = it.run(f2, [Opaque("self")])
+        leaked, undecided, seen = False, False, []
+
+        def mentions(v, depth=0):
+            if depth > 8:
+                return False
+            if isinstance(v, Opaque):
+                return v.tag.startswith("OUTER-FUNCTION-RETURN-TYPE")
+            if isinstance(v, (Variant, absint.Tup)):
+                return any(mentions(x, depth + 1) for x in v.fields)
+            return False
+        for o in outs:
+            if o.kind != "return":
+                undecided = True
+                continue
+            seen.append(repr(o.value)[:80])
+            if mentions(o.value):
+                leaked = True
+        if it.exhausted or not outs:
+            undecided = True
+        rep.ob("C03.return-scope", "%s does not look past the innermost function scope for the type a `return` must have" % mir.short(path),
+               "violated" if leaked else ("undecided" if undecided else "ok"),
+               ("a block inside a void function that is nested in a function returning T starts out owing T: `return v` in it is checked against the wrong function; " if leaked else "")
+               + "on [block, fn (void), fn -> OUTER]: %s" % seen[:3], f2.span, fn=f2.path, key="C03.return-scope|%s" % mir.short(path))
